@@ -41,6 +41,8 @@ type live struct {
 	resp     chan e2e.Outcome
 }
 
+func isRetry(how string) bool { return how == "retryok" || how == "retry2ok" }
+
 // dsClient is the downstream side of one request (raw HTTP/1, HTTP/2 or bolt connection).
 type dsClient interface {
 	Recv(d, grace time.Duration) e2e.Outcome
@@ -225,6 +227,8 @@ func main() {
 				switch o.How {
 				case "retryok":
 					script = "s503,gate"
+				case "retry2ok": // two consecutive retries of the same request: the second is judged with its own slot given back
+					script = "s503,s503,gate"
 				case "close":
 					script, hold = closeBeh, closeBeh
 				case "hang":
@@ -273,7 +277,7 @@ func main() {
 				}
 				retriesBefore := 0
 				for _, x := range reqs {
-					if x != lv && x.admitted && !x.done && x.how == "retryok" {
+					if x != lv && x.admitted && !x.done && isRetry(x.how) {
 						retriesBefore++
 					}
 				}
@@ -281,10 +285,10 @@ func main() {
 				switch {
 				case lv.admitted:
 					tr.Emit(vh.Ev{"ev": "trip", "k": inflight, "admitted": true, "tok": tok})
-					if o.How == "retryok" {
+					if isRetry(o.How) {
 						tr.Emit(vh.Ev{"ev": "retrytrip", "k": retriesBefore, "admitted": true, "tok": tok})
 					}
-					tr.Emit(vh.Ev{"ev": "arrive", "tok": tok, "retry": o.How == "retryok"})
+					tr.Emit(vh.Ev{"ev": "arrive", "tok": tok, "retry": isRetry(o.How)})
 					inflight++
 				case fromUpstream:
 					// the first attempt was admitted and answered 503 by the upstream; the retry was not made
@@ -313,7 +317,7 @@ func main() {
 					continue
 				}
 				switch lv.how {
-				case "ok", "retryok":
+				case "ok", "retryok", "retry2ok":
 					release(lv.tok, "gate")
 					noteOutcome(lv, <-lv.resp)
 				case "close":
